@@ -1,4 +1,4 @@
-use std::collections::{BTreeMap, BTreeSet, HashSet};
+use std::collections::{BTreeMap, BTreeSet};
 use std::convert::TryInto;
 
 use std::fs;
@@ -692,8 +692,10 @@ impl PackageBuilder {
         let mut file_verify_flags = Vec::with_capacity(files_len);
         let mut dir_indixes = Vec::with_capacity(files_len);
         let mut base_names = Vec::with_capacity(files_len);
-        let mut users_to_create = HashSet::new();
-        let mut groups_to_create = HashSet::new();
+        // ordered sets: the requirements below are emitted in iteration order, which has to be
+        // the same for every build of the same package
+        let mut users_to_create = BTreeSet::new();
+        let mut groups_to_create = BTreeSet::new();
 
         let mut combined_file_sizes: u64 = 0;
         let mut uses_file_capabilities = false;
